@@ -127,6 +127,17 @@ impl Probe for SchedProbe {
         }
         None
     }
+    /// The end of a transaction is a point too: whatever a request still does after letting go
+    /// of the storage (filling a cache, building its answer) can be overtaken by a whole other
+    /// request.
+    fn after(&self, call: Call) -> Option<anyhow::Error> {
+        if call == Call::DropTxn {
+            if let Some(s) = sched::global() {
+                s.point("after-txn");
+            }
+        }
+        None
+    }
 }
 
 thread_local! {
